@@ -46,6 +46,12 @@ func (p propSpec) Deadline(tier int) time.Duration { return p.DeadlineT[tier] }
 const techSX = "symbolic execution of the real code's go/ssa (GoSX) with SMT (z3) deciding every branch and assertion over all values of the symbolic inputs within the stated bounds; counterexamples replayed natively"
 
 var properties = map[string]propSpec{
+	"C19": {
+		Level: "model_checking", Technique: techSX + "; differential against a reference renderer; fmt is modelled exactly for the verbs ast.go uses (%s %v %q %[n]x with Stringer/error methods executed from source)",
+		Bounds:  [2]string{"18 parser-produced trees (every node kind, operator, binding mode, selector type; nasty literals) x indent of every string <= 2 bytes x start level 0..3; hand-built trees with symbolic selector parts (<= 1 byte; 2 thorough), literal (<= 1 ASCII byte; 2 thorough: %q decided per byte), binding name, 9 operator values (incl. out of range), 3 selector types, 4 wrappers; three dumps in sequence with different symbolic indents", "same"},
+		Outside: "literal bytes >= 0x80 in symbolic position (multi-byte %q is rendered natively for concrete text only); trees deeper than the corpus",
+		StepBudget: 600_000_000,
+	},
 	"C07": {
 		Level: "model_checking", Technique: techSX + "; path parts are symbolic bytes rendered in every spelling and parsed by the real parser",
 		Bounds:  [2]string{"bracket / backtick / JSON-Pointer (with ~0 ~1) / spaced-bracket spellings of a part of 1..2 symbolic pointer-expressible bytes, as match selector, in-operand and quantified collection, on a datum whose key is symbolic (2 bytes); dotted / bracket / pointer / mixed spellings of three-part paths with a symbolic identifier part and index, at top level and inside a quantifier body; exact matching of a 3-byte symbolic part against map keys and struct field/tag names", "same"},
